@@ -238,12 +238,16 @@ def _t1(ctx: Context) -> None:
     # emitted items, in order: pack(len(chunk)) then encrypt(aad=len bytes, nonce=PACK_NONCE(counter), chunk)
     chunk_t = strip_sites(T.var_after(cfg, take[0], take[2].id)) if isinstance(take[2], ast.Name) else None
     emits = []
+    aug_bufs: set[str] = set()
     for n in sorted(cfg.nodes, key=lambda x: x.lineno):
         if not in_loop(n):
             continue
         for c in ctx.calls(n):
             if isinstance(c.func, ast.Attribute) and c.func.attr in ("append", "extend") and c.args:
                 emits.append((n, strip_sites(T.of(cfg, n, c.args[0])), c.func.attr))
+        if n.kind == "stmt" and isinstance(n.ast, ast.AugAssign) and isinstance(n.ast.op, ast.Add) and isinstance(n.ast.target, ast.Name) and isinstance(n.ast.value, (ast.Tuple, ast.List)):
+            emits.append((n, strip_sites(T.of(cfg, n, n.ast.value)), "extend"))  # `frames += (a, b)` is `frames.extend((a, b))`
+            aug_bufs.add(n.ast.target.id)
     flat = []
     for n, t, how in emits:
         if how == "extend" and t[0] in ("tuple", "list"):
@@ -276,6 +280,7 @@ def _t1(ctx: Context) -> None:
         n, c = sl[0]
         arg = c.args[0] if c.args else None
         bufs = {_u(cc.func.value) for _n, cc in [(e[0], x) for e in emits for x in ctx.calls(e[0]) if isinstance(x.func, ast.Attribute) and x.func.attr in ("append", "extend")]}
+        bufs |= aug_bufs
         oks = arg is not None and _u(arg) in bufs and len(bufs) == 1
     ck.check("C05.T1", oks, "exactly one _send_lines(buffer) after the loop, with the list the frames were appended to", f"{ctx.fkey(f)}:single-send",
              "send_bytes does not hand the complete frame list to _send_lines exactly once after the loop", ctx.loc(f, sl[0][0] if sl else loops[0]))
